@@ -473,7 +473,9 @@ class TimeTriggeredPlanValidator(engines.engine.Engine, mixins.PlanValidatorMixi
             if inside_indexes_condition:
                 inside_indexes.append(x)
 
-        if not open_interval:
+        if not open_interval or (equal_time == before_time and start != end):
+            # The state in force at the lower bound. When the bound is excluded but
+            # nothing happens exactly at it, this state is still in force right after it.
             yield before_time, trace[before_time]
         if equal_time != before_time and equal_time != end:
             yield equal_time, trace[equal_time]
